@@ -330,7 +330,8 @@ def execute(scn: dict, decisions: list | None = None, verbose: bool = False,
             ) -> RunRecord:
     from dst.workload import bodies
     rr = RunRecord(scn)
-    seed = scn['seed']
+    # members of a crash-point sweep family share one scheduler seed
+    seed = scn.get('sched_seed', scn['seed'])
     sim = Sim(seed, policy=scn.get('policy'), decisions=decisions,
               max_steps=scn.get('max_steps', 200_000), lenient=lenient)
     sim.verbose = verbose
